@@ -287,8 +287,17 @@ impl EncodingVersion for EncodingVersion1 {
         dynamic_data: &mut DynamicData,
     ) -> XTypesResult<()> {
         deserializer.deserialize_members(dynamic_data)?;
-        Self::seek_to_pid(deserializer, PID_SENTINEL)?;
-        Ok(())
+        // Move behind the end of the list. This is not a search for the member whose id happens to equal
+        // the sentinel value: only the (sentinel, length 0) entry ends the list, everything else is skipped
+        loop {
+            let current_pid: u16 = deserializer.deserialize_primitive_type()?;
+            let length: u16 = deserializer.deserialize_primitive_type()?;
+            if current_pid & 0b00111111_11111111 == PID_SENTINEL && length == 0 {
+                return Ok(());
+            }
+            deserializer.reader.seek(length as usize)?;
+            Self::align(deserializer, 4)?;
+        }
     }
 
     /// Member of mutable aggregated type (structure, union), version 1 encoding
